@@ -82,7 +82,7 @@ def run_case(case):
         blocks = RD.read_lammps_table(text)
     except RD.FormatError as e:
         return dict(outcome='format-error', nontrivial=True,
-                    violations=[dict(sig='format:' + str(e).split(':')[0][:40], msg='unreadable pair_style table: %s' % e, detail={'text': text[:1500]})])
+                    violations=[dict(sig='format-error', msg='unreadable pair_style table: %s' % e, detail={'text': text[:1500]})])
     viol = check_blocks(case, blocks)
     return dict(outcome='ok:%s:%d' % (case['route'], len(blocks)) if not viol else 'violation', nontrivial=True,
                 evals=sum(len(b['rows']) for b in blocks), violations=viol)
